@@ -160,6 +160,7 @@ Inductive fn :=
 | FMeanOut | FVarOut | FSqrtOpt    (* mappers of rs.math.mean / variance / stddev *)
 | FIsTrue                          (* x is True *)
 | FBatchTerm                       (* rs.data.batch _terminate (repaired) *)
+| FNoneIf (p : fn)                 (* None if truthy (p x) else x : a user function that legitimately returns None *)
 with fn2 :=
 | A2Add | A2Sub | A2Mul | A2Max | A2Min | A2Count | A2Append | A2Snd | A2Fst | A2Lt | A2Le | A2Ne | A2Pair
 | A2Key (a : fn2) (f : fn)         (* a acc (f x) *)
@@ -223,6 +224,7 @@ Fixpoint apply1 (f : fn) (x : val) {struct f} : res :=
         | VList l, VBool false => Ok (tup2 b (VBool (negb (Nat.eqb (length l) 0))))
         | _, _ => Ok (tup2 b (VBool false))
         end))
+  | FNoneIf p => bind (apply1 p x) (fun r => Ok (if truthy r then VNone else x))
   end
 with apply2 (a : fn2) (acc x : val) {struct a} : res :=
   match a with
